@@ -105,6 +105,7 @@ type c22Case struct {
 	NRecs  []int     // records per produce
 	Delete int       // -1 none, 0 delete topic A, 1 delete topic B
 	Groups []string  // consumer group id templates ({V} = topic to delete, {O} = the other topic)
+	Probes []int32   // extra partition indexes (beyond the negatives of the other topic's partitions) requested on both topics
 }
 
 type c22Unit struct {
@@ -120,6 +121,8 @@ type c22Result struct {
 	Accepted    [2]bool
 	Violation   string
 	HostileSeen bool // a hostile name was accepted
+	Probes      int  // requests for partitions that do not exist
+	ProbeAcked  int  // ... that were acknowledged with error code 0 (statistic)
 }
 
 type c22Env struct {
@@ -376,13 +379,13 @@ func c22Run(env *c22Env, c *c22Case, enforceReject bool) *c22Result {
 				continue
 			}
 			if !bytes.Equal(old, v) {
-				if o := owner[k]; o != ui {
+				if o := owner[k]; o != ui && o >= 0 {
 					return fmt.Sprintf("produce to %s partition %d overwrote S3 object %q that belongs to %s partition %d", c22Q(u.Topic), u.Part, k, c22Q(units[o].Topic), units[o].Part)
 				}
 			}
 		}
 		for k := range before {
-			if _, ok := after[k]; !ok && owner[k] != ui {
+			if _, ok := after[k]; !ok && owner[k] != ui && owner[k] >= 0 {
 				return fmt.Sprintf("produce to %s removed S3 object %q of %s", c22Q(u.Topic), k, c22Q(units[owner[k]].Topic))
 			}
 		}
@@ -505,6 +508,85 @@ func c22Run(env *c22Env, c *c22Case, enforceReject bool) *c22Result {
 	if msg := check(h1, "same broker", -1); msg != "" {
 		res.Violation = msg
 		return res
+	}
+	// partition indexes no client of these topics would use (negative, out of range, huge),
+	// in particular -p for every opened partition p of the OTHER topic: requests for them on
+	// the broker that has all logs open may be rejected, but must never read or write another
+	// topic's partition
+	{
+		isOwn := map[string]bool{}
+		for _, u := range units {
+			for _, v := range u.Want {
+				isOwn[fmt.Sprintf("%d|%s", u.TI, v)] = true
+			}
+		}
+		for ti := 0; ti < 2; ti++ {
+			if !res.Accepted[ti] {
+				continue
+			}
+			var probes []int32
+			for _, v := range units {
+				if v.TI != ti && v.Part != 0 {
+					probes = append(probes, -v.Part)
+				}
+			}
+			probes = append(probes, c.Probes...)
+			for _, pp := range probes {
+				if pp >= 0 && int(pp) < nparts[ti] {
+					continue // a real partition of this topic
+				}
+				before := env.obj.Snapshot()
+				batch, _ := c22Batch(fmt.Sprintf("PROBE%d", ti), 0, 1)
+				code, _, perr := c22Produce(h1, c.Names[ti], pp, batch)
+				if perr == nil && code == 0 {
+					res.ProbeAcked++
+				}
+				for k, v := range env.obj.Snapshot() {
+					old, had := before[k]
+					if had && !bytes.Equal(old, v) {
+						res.Violation = fmt.Sprintf("produce to %s partition %d (no such partition) changed S3 object %q", c22Q(c.Names[ti]), pp, k)
+						return res
+					}
+					if !had {
+						for _, u := range units {
+							for ku := range u.Keys {
+								if strings.HasPrefix(k, c22Dir(ku)) {
+									res.Violation = fmt.Sprintf("produce to %s partition %d (no such partition) wrote %q into the directory of %s partition %d", c22Q(c.Names[ti]), pp, k, c22Q(u.Topic), u.Part)
+									return res
+								}
+							}
+						}
+						owner[k] = -1
+					}
+				}
+				req := &kmsg.FetchRequest{MaxWaitMillis: 0, Topics: []kmsg.FetchRequestTopic{{Topic: c.Names[ti],
+					Partitions: []kmsg.FetchRequestTopicPartition{{Partition: pp, FetchOffset: 0, PartitionMaxBytes: 1 << 20}}}}}
+				if raw, ferr := h1.handleFetch(ctx, &protocol.RequestHeader{CorrelationID: 13, APIVersion: 11}, req); ferr == nil {
+					if fr, derr := c22Decode(11, raw, kmsg.NewPtrFetchResponse()); derr == nil {
+						for _, ft := range fr.Topics {
+							for _, fp := range ft.Partitions {
+								batches, _ := vfkit.DecodeBatchesLenient(fp.RecordBatches)
+								for _, b := range batches {
+									for _, r := range b.Records {
+										if v := string(r.Value); !strings.HasPrefix(v, "PROBE") {
+											res.Violation = fmt.Sprintf("fetch of %s partition %d (no such partition) returned record %q of another partition", c22Q(c.Names[ti]), pp, v)
+											return res
+										}
+									}
+								}
+							}
+						}
+					}
+				}
+				res.Probes++
+			}
+		}
+		if res.Probes > 0 {
+			if msg := check(h1, "after requests for partitions that do not exist", -1); msg != "" {
+				res.Violation = msg
+				return res
+			}
+		}
 	}
 	h2 := env.restart(h1)
 	if msg := check(h2, "after restart", -1); msg != "" {
@@ -741,6 +823,7 @@ func c22GenCase(t *rapid.T, st *vfkit.Stats, colonStore bool) (*c22Case, string)
 	c.Order = rapid.SliceOfN(rapid.IntRange(0, 5), 2, 4).Draw(t, "order")
 	c.NRecs = rapid.SliceOfN(rapid.IntRange(1, 3), 1, 3).Draw(t, "nrecs")
 	c.Delete = rapid.IntRange(-1, 1).Draw(t, "delete")
+	c.Probes = rapid.SliceOfNDistinct(rapid.SampledFrom([]int32{-1, -2, -3, 3, 10, 11, 12, 20, 21, 100, 2147483647, -2147483648}), 1, 3, rapid.ID[int32]).Draw(t, "probes")
 	c.Groups = rapid.SliceOfNDistinct(rapid.SampledFrom(c22GroupTemplates), 2, 4, rapid.ID[string]).Draw(t, "groups")
 	if colonStore && c.Delete >= 0 && vfkit.Known(c22ColonID) {
 		victim, other := c.Names[c.Delete], c.Names[1-c.Delete]
@@ -772,12 +855,16 @@ func c22GenLegalName(t *rapid.T, label string) string {
 	return s
 }
 
-var c22LegalTransforms = []string{"legal:dot-digit", "legal:dash-digit", "legal:underscore-digit", "legal:digit", "legal:dot-suffix", "legal:dot-prefix", "legal:upper", "legal:lower",
+var c22LegalTransforms = []string{"legal:dash-suffix", "legal:dash-suffix", "legal:underscore-suffix", "legal:dot-digit", "legal:dash-digit", "legal:underscore-digit", "legal:digit", "legal:dot-suffix", "legal:dot-prefix", "legal:upper", "legal:lower",
 	"legal:dash-underscore", "legal:dot-partitions", "legal:offsets-prefix", "legal:dlq", "legal:config", "legal:extend", "independent", "ordinary"}
 
 func c22LegalTransform(t *rapid.T, n, tr string) string {
 	d := rapid.SampledFrom([]string{"0", "1", "2"}).Draw(t, "digit")
 	switch tr {
+	case "legal:dash-suffix":
+		return n + "-"
+	case "legal:underscore-suffix":
+		return n + "_"
 	case "legal:dot-digit":
 		return n + "." + d
 	case "legal:dash-digit":
@@ -840,6 +927,8 @@ func c22Record(st *vfkit.Stats, c *c22Case, tr string, res *c22Result) {
 	if c.Delete >= 0 {
 		st.Class("delete-one")
 	}
+	st.ClassN("probe-partition-requests", res.Probes)
+	st.ClassN("probe-produce-acked", res.ProbeAcked)
 	if res.Accepted[0] && res.Accepted[1] && c22Related(tr) {
 		if st.NonTrivial(c.Names[0], c.Names[1], c.Paths, c.Parts, c.ExtraA, c.Delete) {
 			st.Sample(map[string]any{"names": []string{c22Q(c.Names[0]), c22Q(c.Names[1])}, "transform": tr, "paths": c.Paths, "parts": c.Parts, "delete": c.Delete})
